@@ -1,5 +1,6 @@
 import SynKitModel.SubgraphSearch
 import SynKitProofs.SubgraphSearchLemmas
+import SynKitProofs.SubgraphPrefilterLemmas
 /-!
 # C06 — subgraph search returns exactly the label-preserving monomorphisms
 
@@ -199,5 +200,157 @@ example : IsMono exSel exH exP [(10, 1), (11, 3)] ∧ DistinctComponents exH exP
   have h := comp_sound exSel exH exP (by decide) (by decide) 0 false 5000 [(10, 1), (11, 3)] (by decide)
   exact ⟨h.1, h.2.resolve_left (by decide)⟩
 end Examples
+
+/-! ## `_quick_pre_filter` (clause "result limits only truncate the list or, past the threshold, empty it",
+the `pre_filter=True` guard)
+
+`cands sel H P (p, pa)` are the host nodes the pre-filter counts for the pattern node `p` (selected
+attributes equal, host hydrogen count ≥ pattern's, host degree ≥ pattern degree), `candCount` their
+number, `estimate sel H P` the product of the counts over all pattern nodes
+(`SynKitProofs/SubgraphPrefilterLemmas.lean`).  The Python comparison `estimate > threshold * 1e4`
+(an `int` against a `float`; Python compares the two exactly, and `threshold * 1e4` is exact as long as
+`threshold * 10⁴ < 2⁵³`) is the integer comparison `estimate > thr * 10000` of the model. -/
+
+/-- **C06, soundness of every strategy on a pair without a match**: if no label-preserving
+monomorphism exists, `find_subgraph_mappings` returns `[]` whatever the strategy, the limits and the
+pre-filter flag. -/
+theorem search_nil_of_no_mono (cfg : Cfg) (sel : Sel) (H P : LGraph) (hH : H.WF) (hP : P.WF)
+    (h : ∀ m, ¬ IsMono sel H P m) : search cfg sel H P = [] := by
+  have hnil : allMonos sel H P = [] := by
+    rw [List.eq_nil_iff_forall_not_mem]
+    intro m hm; exact h m ((mem_allMonos sel H P hP m).1 hm)
+  have hall : ∀ k thr, findAll sel H P k thr = [] := by
+    intro k thr; unfold findAll; rw [hnil]; rfl
+  have hcomp : ∀ k strict thr, findComp sel H P k strict thr = [] := by
+    intro k strict thr
+    rw [List.eq_nil_iff_forall_not_mem]
+    intro m hm
+    exact h m (comp_sound sel H P hH hP k strict thr m hm).1
+  have hd : dispatch cfg sel H P = [] := by
+    unfold dispatch
+    cases cfg.strategy with
+    | all => exact hall _ _
+    | comp => exact hcomp _ _ _
+    | bt =>
+      show findBt sel H P cfg.maxRes cfg.strict cfg.thr = []
+      unfold findBt
+      rw [hcomp]
+      exact hall _ _
+  unfold search
+  split
+  · rfl
+  · simp only [hd]; rfl
+
+/-- **Pre-filter, zero branch is sound.**  If some pattern node `n = (p, pa)` has no candidate host
+node — no host node whose selected attributes equal `pa`'s, whose hydrogen count is ≥ `pa`'s and whose
+degree is ≥ the degree of `p` — then no label-preserving monomorphism exists and the enumeration is
+empty: the branch `if count == 0: return True` never loses a match. -/
+theorem prefilter_zero_sound (sel : Sel) (H P : LGraph) (hP : P.WF) (n : Nat × Attrs) (hn : n ∈ P.nodes)
+    (h0 : ∀ ha ∈ H.nodes, ¬ (nodeOk sel ha.2 n.2 = true ∧ degree H ha.1 ≥ degree P n.1)) :
+    (∀ m, ¬ IsMono sel H P m) ∧ allMonos sel H P = [] := by
+  have hc : candCount sel H P n = 0 := (candCount_eq_zero_iff sel H P n).2 h0
+  exact ⟨no_mono_of_zero sel H P hP n hn hc, allMonos_nil_of_zero sel H P hP n hn hc⟩
+
+/-- **Pre-filter, zero branch changes nothing**: in that situation the search returns `[]` with or
+without the pre-filter (for every strategy and every setting of the limits). -/
+theorem prefilter_zero_lossless (cfg : Cfg) (sel : Sel) (H P : LGraph) (hH : H.WF) (hP : P.WF)
+    (n : Nat × Attrs) (hn : n ∈ P.nodes) (h0 : candCount sel H P n = 0) :
+    search cfg sel H P = [] ∧ search { cfg with preFilter := false } sel H P = [] :=
+  ⟨search_nil_of_no_mono cfg sel H P hH hP (no_mono_of_zero sel H P hP n hn h0),
+   search_nil_of_no_mono _ sel H P hH hP (no_mono_of_zero sel H P hP n hn h0)⟩
+
+/-- **Pre-filter, the estimate over-approximates.**  The product over the pattern nodes of the
+candidate counts is an upper bound on the number of label-preserving monomorphisms (each one picks a
+candidate for every pattern node, and distinct monomorphisms pick differently).  So the threshold
+branch `estimate > threshold * 1e4` can fire although the true number of matches is small — the
+documented over-approximation — but never fires when even the estimate is within the bound. -/
+theorem prefilter_estimate_upper (sel : Sel) (H P : LGraph) (hH : H.ids.Nodup) (hP : P.WF) :
+    (allMonos sel H P).length ≤ estimate sel H P :=
+  allMonos_length_le_estimate sel H P hH hP
+
+/-- **Pre-filter, when it fires** (exact characterisation of the loop with its early exits):
+`_quick_pre_filter` returns `True` iff some pattern node has no candidate host node or the product of
+all candidate counts exceeds `threshold * 10⁴`.  (Side condition: for `threshold = 0` and a pattern
+without nodes the loop body never runs.) -/
+theorem prefilter_fires_iff (sel : Sel) (H P : LGraph) (thr : Nat) (hne : 0 < thr ∨ P.nodes ≠ []) :
+    quickPreFilter sel H P thr = true ↔
+      (∃ n ∈ P.nodes, candCount sel H P n = 0) ∨ estimate sel H P > thr * 10000 :=
+  quickPreFilter_iff sel H P thr hne
+
+/-- **Pre-filter: sound or large.**  With `pre_filter=True`:
+* if `_quick_pre_filter` gives up, the result is `[]`, and either no label-preserving monomorphism
+  exists at all (so nothing is lost) or the estimate — an upper bound on the number of matches by
+  `prefilter_estimate_upper`, not the number itself — exceeds `threshold * 10⁴`;
+* otherwise the result is exactly the result without the pre-filter, and the number of matches is
+  at most `threshold * 10⁴`. -/
+theorem prefilter_sound_or_large (cfg : Cfg) (sel : Sel) (H P : LGraph) (hH : H.ids.Nodup) (hP : P.WF)
+    (hf : cfg.preFilter = true) :
+    (quickPreFilter sel H P cfg.thr = true →
+        search cfg sel H P = [] ∧
+          ((∀ m, ¬ IsMono sel H P m) ∨ estimate sel H P > cfg.thr * 10000)) ∧
+    (quickPreFilter sel H P cfg.thr = false →
+        search cfg sel H P = search { cfg with preFilter := false } sel H P ∧
+          ((P.nodes ≠ [] ∨ 0 < cfg.thr) → (allMonos sel H P).length ≤ cfg.thr * 10000)) := by
+  constructor
+  · intro hq
+    refine ⟨by rw [prefilter_spec cfg sel H P hf, if_pos hq], ?_⟩
+    have := quickLoop_true_imp sel H P cfg.thr P.nodes 1 hq
+    rw [Nat.one_mul] at this
+    rcases this with ⟨n, hn, h0⟩ | hgt
+    · exact Or.inl (no_mono_of_zero sel H P hP n hn h0)
+    · exact Or.inr hgt
+  · intro hq
+    refine ⟨by rw [prefilter_spec cfg sel H P hf, hq]; rfl, ?_⟩
+    intro hne
+    have hnot : ¬ ((∃ n ∈ P.nodes, candCount sel H P n = 0) ∨ estimate sel H P > cfg.thr * 10000) := by
+      intro hc
+      have := (quickPreFilter_iff sel H P cfg.thr (hne.symm)).2 hc
+      rw [hq] at this; cases this
+    have := allMonos_length_le_estimate sel H P hH hP
+    omega
+
+/-! ### Non-vacuity of the pre-filter theorems
+
+* zero branch by attributes: pattern node `N` in the all-carbon host `exH`;
+* zero branch by degree: pattern `C–C–C` (centre of degree 2) in the host `C–C  C`;
+* threshold branch losing a match: a 12-ring of carbons with bond orders `1, 2, 3` on three consecutive
+  bonds (single elsewhere) and the pattern path `C–C=C≡C`: exactly one monomorphism, every pattern
+  node has 12 candidates, estimate `12⁴ = 20736 > 1 · 10⁴`, so with `threshold = 1` the pre-filter
+  empties a result that the limits alone would have kept. -/
+section PrefilterExamples
+def exPN : LGraph := { nodes := [(10, [("element", .str "N")])], edges := [] }
+def exP3 : LGraph :=
+  { nodes := [(10, [("element", .str "C")]), (11, [("element", .str "C")]), (12, [("element", .str "C")])]
+    edges := [(10, 11, [("order", .num 2)]), (11, 12, [("order", .num 2)])] }
+
+example : exPN.WF ∧ candCount exSel exH exPN (10, [("element", .str "N")]) = 0 ∧
+    quickPreFilter exSel exH exPN 5000 = true ∧ allMonos exSel exH exPN = [] := by decide
+example : exP3.WF ∧ candCount exSel exH exP3 (11, [("element", .str "C")]) = 0 ∧
+    candCount exSel exH exP3 (10, [("element", .str "C")]) = 2 ∧
+    quickPreFilter exSel exH exP3 5000 = true ∧ allMonos exSel exH exP3 = [] := by decide
+/-- Pre-filter not firing: estimate `3 · 3 = 9 ≥ 6 =` number of matches, result unchanged. -/
+example : quickPreFilter exSel exH exP 5000 = false ∧ estimate exSel exH exP = 9 ∧
+    (allMonos exSel exH exP).length = 6 ∧
+    search { strategy := .all, preFilter := true } exSel exH exP = search { strategy := .all } exSel exH exP := by
+  decide
+
+def cAt : Attrs := [("element", .str "C")]
+def exRing : LGraph :=
+  { nodes := [(1, cAt), (2, cAt), (3, cAt), (4, cAt), (5, cAt), (6, cAt), (7, cAt), (8, cAt), (9, cAt),
+      (10, cAt), (11, cAt), (12, cAt)]
+    edges := [(1, 2, [("order", .num 2)]), (2, 3, [("order", .num 4)]), (3, 4, [("order", .num 6)]),
+      (4, 5, [("order", .num 2)]), (5, 6, [("order", .num 2)]), (6, 7, [("order", .num 2)]),
+      (7, 8, [("order", .num 2)]), (8, 9, [("order", .num 2)]), (9, 10, [("order", .num 2)]),
+      (10, 11, [("order", .num 2)]), (11, 12, [("order", .num 2)]), (12, 1, [("order", .num 2)])] }
+def exPath : LGraph :=
+  { nodes := [(20, cAt), (21, cAt), (22, cAt), (23, cAt)]
+    edges := [(20, 21, [("order", .num 2)]), (21, 22, [("order", .num 4)]), (22, 23, [("order", .num 6)])] }
+
+example : exRing.WF ∧ exPath.WF := by decide
+example : estimate exSel exRing exPath = 20736 ∧ quickPreFilter exSel exRing exPath 1 = true := by decide
+example : search { strategy := .all, threshold := some 1 } exSel exRing exPath = [[(20, 1), (21, 2), (22, 3), (23, 4)]] := by
+  decide
+example : search { strategy := .all, threshold := some 1, preFilter := true } exSel exRing exPath = [] := by decide
+end PrefilterExamples
 
 end SynKit.SubgraphSearch
